@@ -457,7 +457,18 @@ ASSIGNED = {  # field given the usual pydantic way: x: T = Field(...)
     "int": (int, None), "int,ge0": (int, dict(ge=0)), "int,ge-10": (int, dict(ge=-10)), "int,le5": (int, dict(le=5)),
     "str": (T.Str, None), "str,re[a-z]": (T.Str, dict(regex="^[a-z]+$")), "str,re[a-z0-9]": (T.Str, dict(regex="^[a-z0-9]+$")),
     "int,alias": (int, dict(alias="fileSize")), "List[int],min1": (List[int], dict(min_items=1)), "List[int]": (List[int], None),
+    # pinned values, and a plain default for comparison
+    "int,const1": (int, dict(__default__=1, const=True)), "int,const2": (int, dict(__default__=2, const=True)), "int,default1": (int, dict(__default__=1)),
+    # a constraint on a str subclass: pydantic swaps the type for a generic constrained str
+    "Mime": (T.MimeTypeStr, None), "Mime,max50": (T.MimeTypeStr, dict(max_length=50)),
 }
+
+
+def _assigned_default(kw):
+    if not kw:
+        return _NODEFAULT
+    kw = dict(kw)
+    return Field(kw.pop("__default__", ...), **kw)
 
 
 def _leaf_vs_parent(p, c, case, sig):
@@ -487,8 +498,12 @@ def check_special(kind, pname, ptype, arg, rec):
         if kind == "assigned":
             pt, pkw = ASSIGNED[pname]
             ct, ckw = ASSIGNED[arg]
-            p = mk(MetadataSchema, pt, plugin=True, default=Field(..., **pkw) if pkw else _NODEFAULT)
-            c = mk(p, ct, plugin=True, default=Field(..., **ckw) if ckw else _NODEFAULT)
+            p = mk(MetadataSchema, pt, plugin=True, default=_assigned_default(pkw))
+            c = mk(p, ct, plugin=True, default=_assigned_default(ckw))
+        elif kind == "bareconst":  # the parent pins the value, the child body just assigns one
+            pt, pkw = ASSIGNED[pname]
+            p = mk(MetadataSchema, pt, plugin=True, default=_assigned_default(pkw))
+            c = mk(p, None, plugin=True, default=arg)
         else:
             p = mk(MetadataSchema, ptype, plugin=True)
             if kind == "const":
@@ -513,6 +528,7 @@ def run_special(rec):
     jobs += [("bare", pn, P[pn], v) for pn in sorted(P) for v in BARE_VALUES]
     jobs += [("bare", pn, PLAIN[pn], v) for pn in sorted(PLAIN) for v in BARE_VALUES]
     jobs += [("assigned", a, None, b) for a in ASSIGNED for b in ASSIGNED if a != b]
+    jobs += [("bareconst", "int,const1", None, v) for v in (1, 2)]
     seen = set()
     for kind, pn, pt, arg in jobs:
         try:
@@ -521,6 +537,69 @@ def run_special(rec):
             if v.signature not in seen:
                 seen.add(v.signature)
                 rec.fail(v.signature, dict(kind="special", how=kind, parent=pn, arg=arg), v.observed, v.expected)
+
+
+def check_config_mixin(rec):
+    """Config settings a schema must not change are refused when written in the Config body; the same setting coming
+    from a class the inner Config derives from must not slip through (pydantic merges the whole MRO of Config)."""
+    for setting, val, witness in (("min_anystr_length", 0, dict(label="", ratio=1.0)), ("allow_inf_nan", True, dict(label="a", ratio=float("inf"))),
+                                  ("anystr_strip_whitespace", False, dict(label=" a ", ratio=1.0))):
+        for how in ("direct", "mixin"):
+            case = dict(kind="config", setting=setting, how=how)
+            parent = SchemaMetaclass("CfgParent", (MetadataSchema,), {"__module__": "vt_generated", "__annotations__": {"label": str, "ratio": float},
+                                                                     "Plugin": type("Plugin", (), {"name": f"vt.cfgparent.{setting}.{how}".replace("_", ""), "version": (0, 1, 0)})})
+            mixin = type("ProjectDefaults", (), {setting: val})
+            conf = type("Config", (), {setting: val}) if how == "direct" else type("Config", (mixin,), {"title": "Child"})
+            try:
+                child = SchemaMetaclass("CfgChild", (parent,), {"__module__": "vt_generated", "Config": conf,
+                                                                 "Plugin": type("Plugin", (), {"name": f"vt.cfgchild.{setting}.{how}".replace("_", ""), "version": (0, 1, 0)})})
+                check_types(child)
+                refused = False
+            except (TypeError, ValueError):
+                refused = True
+            if not refused:
+                try:
+                    raw = bytes(child(**witness))
+                    parent.parse_raw(raw)
+                    bad = None
+                except Exception as e:  # noqa: BLE001
+                    bad = f"{type(e).__name__}: {str(e)[:150]}"
+                if bad:
+                    rec.fail(f"C13:config-setting-not-refused:{how}", case, f"child with Config {setting}={val} ({how}) accepted; {witness} is valid for it, "
+                             f"but the parent rejects it: {bad}", "refused at class creation (as when written directly)")
+            rec.case(nt_key=["config", setting, how], classes=["config_rule", f"config_{how}"], sample=dict(case, refused=refused))
+
+
+def check_parser_subclass(rec):
+    """A field narrowed to a subclass of the parent's nested schema type: the subclass must not accept what the
+    parent's type refuses (installed pair core.imagefile / Pixels)."""
+    from metador_core.plugins import schemas
+    from metador_core.schema.common import Pixels
+
+    Image = schemas.get("core.imagefile", (0, 1, 0))
+    noted = SchemaMetaclass("NotedPixels", (Pixels,), {"__module__": "vt_generated", "__annotations__": {"note": Optional[T.Str]}})
+    setattr(G.GENMOD, "NotedPixels", noted)
+    case = dict(kind="parser-subclass", parent="core.imagefile", field="width")
+    try:
+        child = SchemaMetaclass("NotedImageMeta", (Image,), {"__module__": "vt_generated", "__annotations__": {"width": noted},
+                                                             "Plugin": type("Plugin", (), {"name": "vt.notedimage", "version": (0, 1, 0)})})
+        check_types(child)
+    except (TypeError, ValueError):
+        rec.case(nt_key=["parser-subclass", "refused"], classes=["parser_subclass"], sample=dict(case, outcome="refused"))
+        return
+    base = dict(filename="a.png", encodingFormat="image/png", contentSize=1, sha256="0" * 64, height={"value": 1})
+    for width in ({"value": 5, "unitText": "furlong"}, {"value": 5, "unitText": "px"}, "5 px", 5):
+        try:
+            o = child(**base, width=width)
+        except Exception:  # noqa: BLE001
+            continue
+        try:
+            Image.parse_raw(bytes(o))
+        except Exception as e:  # noqa: BLE001
+            rec.fail("C13:nested-subclass-loses-parser:core.imagefile.width", dict(case, width=width),
+                     f"child with width: NotedPixels(Pixels) passes the plugin check and accepts width={width!r}; core.imagefile rejects the dumped object: {str(e)[:160]}",
+                     "refused when the plugin is checked, or the subclass refuses what Pixels refuses")
+    rec.case(nt_key=["parser-subclass", "accepted"], classes=["parser_subclass"], sample=dict(case, outcome="accepted"))
 
 
 def check_installed(name, version, recipe, rec=None):
@@ -588,6 +667,8 @@ def run_shard(shard, tier, seed, rec):
         run_special(rec)
     elif k == "extra":
         check_extra_rule(rec)
+        check_config_mixin(rec)
+        check_parser_subclass(rec)
         check_recursive_siblings(rec)
     elif k == "sticky":
         P = pool()
@@ -653,6 +734,10 @@ def replay(rp, rec):
         elif case.get("kind") == "special":
             P = pool()
             check_special(case["how"], case["parent"], P.get(case["parent"], PLAIN.get(case["parent"])), case["arg"], rec)
+        elif case.get("kind") == "config":
+            check_config_mixin(rec)
+        elif case.get("kind") == "parser-subclass":
+            check_parser_subclass(rec)
         elif case.get("kind") == "extra":
             check_extra_rule(rec)
         elif case.get("kind") == "recursive":
